@@ -9,6 +9,7 @@
 //                      target type once the identifier itself / the cleaned list is taken out)
 //   VF_MODE 1 (C07.g)  explicit rank argument beyond the count (count+1, count+2): consecutiveness clause
 //   VF_MODE 2 (C07.a.stale) the identifier is in range but designates a deleted column
+//   VF_MODE 3 (C07.a.reassign) / 4 (C07.a.uclean): the two argument classes split off mode 0 (see cfg_admissible)
 #include "dbstate.h"
 #ifndef VF_MODE
 #define VF_MODE 0
@@ -35,14 +36,22 @@ constexpr int cfg_count_after(const Cfg& c) // roles of type t once the list is 
   if (c.clean) return 0;
   return c.l[c.t] - (c.wj == c.t ? 1 : 0);
 }
+// Two argument classes are decided by kernels of their own (VF_MODE 3 and 4), so that a defect confined to one
+// class does not mask the verdict on the rest; together the modes 0, 3, 4 partition the domain described above.
+constexpr bool cfg_auto_reassign(const Cfg& c) // automatic rank while the identifier already holds a role of the target type
+{
+  return c.k < 0 && !c.clean && c.t >= 0 && c.wj == c.t;
+}
+constexpr bool cfg_unknown_clean(const Cfg& c) // cleanSameLocator together with ELoc::UNKNOWN, valid identifier
+{
+  return c.t < 0 && c.clean && c.wj > W_BIG;
+}
 constexpr bool cfg_admissible(const Cfg& c)
 {
-#ifdef VF_EXCL_AUTO_REASSIGN // known-finding signature: automatic rank, identifier already holds a role of the target type
-  if (c.k < 0 && !c.clean && c.t >= 0 && c.wj == c.t) return false;
-#endif
-#ifdef VF_EXCL_UNKNOWN_CLEAN // known-finding signature: cleanSameLocator with ELoc::UNKNOWN
-  if (c.t < 0 && c.clean && c.wj > W_BIG) return false;
-#endif
+  if (VF_MODE == 0) return !cfg_auto_reassign(c) && !cfg_unknown_clean(c);
+  if (VF_MODE == 3) return cfg_auto_reassign(c);
+  if (VF_MODE == 4) return cfg_unknown_clean(c) && c.wj != W_STALE;
+  if (VF_MODE == 2) return !cfg_unknown_clean(c);
   return true;
 }
 constexpr Cfg cfg_get(int want) // want < 0: returns the count in .k
@@ -58,7 +67,7 @@ constexpr Cfg cfg_get(int want) // want < 0: returns the count in .k
             {
               c.l[0] = l0; c.l[1] = l1; c.l[2] = l2;
               c.t = t; c.clean = cl != 0; c.wj = wj;
-              if (VF_MODE == 0 && wj == W_STALE) continue;
+              if ((VF_MODE == 0 || VF_MODE == 3 || VF_MODE == 4) && wj == W_STALE) continue;
               if (VF_MODE == 1 && (wj < W_FREE || t < 0)) continue;
               if (VF_MODE == 2 && wj != W_STALE) continue;
               if (wj == W_FREE && l0 + l1 + l2 >= VF_NCOL) continue; // no live identifier left without a role
@@ -119,7 +128,7 @@ __attribute__((noinline)) static void step(const Cfg& c)
   r_distinct = vf_lists_distinct(post);
   const bool valid = c.wj > W_BIG;
   r_designated = r_others = r_noop = true;
-#if VF_MODE == 0
+#if VF_MODE == 0 || VF_MODE == 3 || VF_MODE == 4
   // ---- reference: take the identifier out (ranks behind it move up), clean, then place it
   if (valid)
   {
